@@ -81,6 +81,9 @@ Lemma tie_global_value i :
   value_result (run no_set exp_globalPalette_value (VPal PGlobal) [VZ i]) = Some (pal_value PGlobal i).
 Proof. run_closed. reflexivity. Qed.
 
+Lemma zlen_snoc (l : list Z) x : zlen (l ++ [x])%list - 1 = zlen l.
+Proof. unfold zlen. rewrite app_length. cbn [List.length]. lia. Qed.
+
 (* ---------- linearPalette ---------- *)
 Definition find_body : list gstmt :=
   [SIf [] (EBin "==" (EId "t") (EId "v")) [SReturn [(EId "i"); (EId "true")]] []].
@@ -110,7 +113,127 @@ Proof.
   rewrite seq_cons, exec_range. ev1. fold find_body.
   rewrite (range_find v (VPal (PLinear vals cap pb)) 7 vals 0).
   cbn [pal_id]. destruct (index_of v vals 0) as [r|]; [reflexivity|].
-  step. destruct (0 <? cap - zlen vals).
-  - reflexivity.
+  step. destruct (Z.ltb_spec 0 (cap - zlen vals)) as [Hroom|Hfull].
+  - destruct (Z.ltb_spec (zlen vals) cap) as [_|Hc]; [|lia]. cbv beta iota.
+    match goal with |- context [id_result ?f ?r] => let t := lz (id_result f r) in change (id_result f r) with t end.
+    rewrite zlen_snoc. reflexivity.
   - cbv beta iota. step. reflexivity.
 Qed.
+
+Ltac value_proof vals i :=
+  run_closed; cbn [pal_value];
+  destruct (0 <=? i) eqn:E1; cbv beta iota; rewrite ?E1; cbn [andb]; cbv beta iota; [|reflexivity];
+  destruct (i <? zlen vals) eqn:E2; cbv beta iota; rewrite ?E2; cbv beta iota; [|reflexivity];
+  destruct (nth_error vals (Z.to_nat i)) eqn:E3; cbv beta iota; [reflexivity|];
+  exfalso; apply nth_error_None in E3; unfold zlen in E2; lia.
+
+Lemma tie_linear_value vals cap pb i :
+  value_result (run no_set exp_linearPalette_value (VPal (PLinear vals cap pb)) [VZ i])
+  = Some (pal_value (PLinear vals cap pb) i).
+Proof. value_proof vals i. Qed.
+
+Lemma tie_hash_value vals cap pb i :
+  value_result (run no_set exp_hashPalette_value (VPal (PHash vals cap pb)) [VZ i])
+  = Some (pal_value (PHash vals cap pb) i).
+Proof. value_proof vals i. Qed.
+
+(* ---------- hashPalette.id: the map is the last-index view of values ---------- *)
+Lemma tie_hash_id vals cap pb v :
+  id_result exp_hashPalette_id (run no_set exp_hashPalette_id (VPal (PHash vals cap pb)) [VZ v])
+  = Some (pal_id (PHash vals cap pb) v).
+Proof.
+  unfold run, exec_body, run_fuel. cbn [g_recv g_params g_body exp_hashPalette_id bind_all map fst].
+  rewrite seq_cons, exec_if. step. cbn [pal_id].
+  destruct (last_index_of v vals 0) as [r|]; cbv beta iota.
+  - rewrite seq_nil. cbv beta iota. ev1.
+    match goal with |- context [scoped_exec ?st ?e ?b] => let t := lz (scoped_exec st e b) in change (scoped_exec st e b) with t end.
+    reflexivity.
+  - rewrite seq_nil. cbv beta iota. ev1.
+    match goal with |- context [scoped_exec ?st ?e ?b] => let t := lz (scoped_exec st e b) in change (scoped_exec st e b) with t end.
+    cbv beta iota.
+    match goal with |- context [pop_to ?n ?e] => let t := lz (pop_to n e) in change (pop_to n e) with t end.
+    step. destruct (Z.ltb_spec 0 (cap - zlen vals)) as [Hroom|Hfull].
+    + rewrite Z.eqb_refl. cbv beta iota.
+      destruct (Z.ltb_spec (zlen vals) cap) as [_|Hc]; [|lia]. cbv beta iota.
+      assert (Eq : zlist_eqb (vals ++ [v])%list (vals ++ [v])%list = true).
+      { generalize (vals ++ [v])%list. induction l as [|x t IH]; cbn; [reflexivity|]. rewrite Z.eqb_refl. exact IH. }
+      rewrite Eq. cbn [andb]. cbv beta iota.
+      match goal with |- context [id_result ?f ?r] => let t := lz (id_result f r) in change (id_result f r) with t end.
+      rewrite zlen_snoc. reflexivity.
+    + cbv beta iota. step. reflexivity.
+Qed.
+
+(* ---------- the configuration tables: create ---------- *)
+Definition create_result (r : sres) : option pal := match r with SR _ [VPal p] => Some p | _ => None end.
+
+Ltac split_b b :=
+  repeat match goal with
+         | |- context [b =? ?k] => destruct (Z.eqb_spec b k); [subst b; reflexivity|]; cbv beta iota
+         end.
+
+Lemma tie_biomes_create g b :
+  create_result (run no_set exp_biomesCfg_create (VCfg (mkCfg KBiomes g)) [VZ b]) = Some (cfg_create (mkCfg KBiomes g) b).
+Proof.
+  run_closed. unfold cfg_create, in_range. cbn [ckind]. split_b b.
+  destruct (Z.leb_spec 1 b); destruct (Z.leb_spec b 3); cbn [andb]; try reflexivity; lia.
+Qed.
+
+Lemma tie_states_create g b :
+  create_result (run no_set exp_statesCfg_create (VCfg (mkCfg KStates g)) [VZ b]) = Some (cfg_create (mkCfg KStates g) b).
+Proof.
+  run_closed. unfold cfg_create, in_range. cbn [ckind]. split_b b.
+  destruct (Z.leb_spec 1 b); destruct (Z.leb_spec b 4); destruct (Z.leb_spec 5 b); destruct (Z.leb_spec b 8);
+    cbn [andb]; try reflexivity; lia.
+Qed.
+
+(* ---------- PaletteContainer.Get ---------- *)
+Definition out_result (r : sres) : option outcome :=
+  match r with SR _ [VZ v] => Some (ORet v) | SN _ => Some OUnit | SP _ w => Some (OPanic w) | _ => None end.
+
+Lemma bs_get_outcome d i : (exists v, snd (bs_get d i) = ORet v) \/ (exists w, snd (bs_get d i) = OPanic w).
+Proof.
+  unfold bs_get. destruct (vpl d =? 0); [left; eexists; reflexivity|].
+  destruct (bad_index d i); [right; eexists; reflexivity|].
+  destruct (locate d i) as [[[c off] l]|]; [left|right]; eexists; reflexivity.
+Qed.
+Lemma bs_set_outcome d i v : snd (bs_set d i v) = OUnit \/ (exists w, snd (bs_set d i v) = OPanic w).
+Proof.
+  unfold bs_set. destruct (vpl d =? 0); [left; reflexivity|].
+  destruct (bad_value d v); [right; eexists; reflexivity|].
+  destruct (bad_index d i); [right; eexists; reflexivity|].
+  destruct (locate d i) as [[[c off] l]|]; [left|right; eexists]; reflexivity.
+Qed.
+
+Lemma tie_get c i : out_result (run no_set exp_PaletteContainer_Get (VCont c) [VZ i]) = Some (pc_get c i).
+Proof.
+  run_closed. unfold pc_get.
+  destruct (bs_get_outcome (cdata c) i) as [[k E]|[w E]]; rewrite E; cbv beta iota.
+  - unfold of_outcome. cbv beta iota. destruct (pal_value (cpal c) k); reflexivity.
+  - reflexivity.
+Qed.
+
+(* ---------- PaletteContainer.WriteTo: the order of the three fields ---------- *)
+Definition write_piece (c : pc) (x : gexpr) : option (list N) :=
+  match x with
+  | ECall (ESel (EId "pk") "UnsignedByte") [ESel (EId "p") "bits"] => Some [Z.to_N (cbits c mod 256)]
+  | ESel (EId "p") "palette" => Some (pal_write (cpal c))
+  | ESel (EId "p") "data" => Some (fst (bs_write (cdata c)))
+  | _ => None
+  end.
+Fixpoint write_pieces (c : pc) (xs : list (string * gexpr)) : option (list N) :=
+  match xs with
+  | [] => Some []
+  | ("", x) :: t => match write_piece c x, write_pieces c t with
+                    | Some a, Some b => Some (a ++ b)
+                    | _, _ => None
+                    end
+  | _ => None
+  end.
+(* pk.Tuple{...}.WriteTo(w) writes its fields in order *)
+Definition interp_writeto (fn : gfunc) (c : pc) : option (list N) :=
+  match g_body fn with
+  | [SReturn [ECall (ESel (ELit "pk.Tuple" fs) "WriteTo") [EId "w"]]] => write_pieces c fs
+  | _ => None
+  end.
+Lemma tie_writeto c : interp_writeto exp_PaletteContainer_WriteTo c = Some (fst (pc_write c)).
+Proof. unfold pc_write. cbn. rewrite app_nil_r. reflexivity. Qed.
